@@ -747,7 +747,7 @@ def run(ctx, scale):
               "components; every stage compared at all entry points, per-query and reversed batches and a permuted copy; "
               "non-trivial = some stage certified with cond(A) <= 1e8 (tolerance max(1e-12, 64 eps cond) binding); distinct by full input")
   ctx.partial = ["IEEE rounding is not modelled: implementation compared with the exact conditional within max(1e-12, 64*eps*cond(A))*scale",
-                 "positive semidefiniteness of the kernel Gram matrices themselves is a hypothesis here (C03); the library's covariance output is certified PSD exactly per case"]
+                 "the joint-PSD hypothesis of the covariance / variance theorems is discharged over the reals for all four radial kernels and the tensor kernel (Part IV: radial_post_cov_posSemidef, radial_post_var_nonneg_of_noise_pos, multitask_*; via C03); the rational list model keeps it as a hypothesis (its entries are the floats the library computed, not exact kernel values), and the library's covariance output is certified PSD exactly per case"]
   if ctx.driver is None:
     ctx.notes.append("driver unavailable: only building/auditing the theorems")
     return
